@@ -336,6 +336,10 @@ async fn scenario(a: &ShardArgs, idx: u64) {
     // sometimes the outstation starts with its null unsolicited response outstanding: the first READs arrive during
     // that confirm wait and are deferred (no class is ever enabled, so nothing else is sent unsolicited)
     cfg.unsolicited = r.chance(1, 6);
+    // READ requests with as many object headers as the configuration admits (64 unless configured)
+    cfg.max_read_headers = if r.chance(1, 4) { Some(*r.pick(&[65u16, 80, 128, 255])) } else { None };
+    let many_headers = r.chance(1, 6);
+    let header_cap = cfg.max_read_headers.unwrap_or(64) as u64;
     let with_events = r.chance(1, 4);
     // database layout: sparse and dense index sets
     let mut layout: Vec<(usize, u16, u8)> = vec![];
@@ -421,9 +425,10 @@ async fn scenario(a: &ShardArgs, idx: u64) {
         if with_events && r.bool() {
             b = b.all(60, 2);
         }
-        let nh = r.range(1, 4);
+        let many = many_headers && r.chance(2, 3);
+        let nh = if many { r.range(header_cap - 8, header_cap - 1) } else { r.range(1, 4) };
         for _ in 0..nh {
-            match r.below(5) {
+            match if many { 1 + r.below(8) } else { r.below(5) } {
                 0 => {
                     b = b.all(60, 1);
                     hdrs.push(Hdr::Class0);
@@ -446,7 +451,7 @@ async fn scenario(a: &ShardArgs, idx: u64) {
                         *r.pick(svars(t))
                     };
                     let lo = r.range(0, 30) as u16;
-                    let hi = lo + r.range(0, 40) as u16;
+                    let hi = lo + if many { r.range(0, 2) } else { r.range(0, 40) } as u16;
                     let (lo, hi) = if r.chance(1, 12) {
                         (65530, 65535)
                     } else {
@@ -867,6 +872,12 @@ async fn scenario(a: &ShardArgs, idx: u64) {
             out::count("complete_series_ok", 1);
             if frags.len() > 1 {
                 out::count("multi_fragment_series_ok", 1);
+            }
+            if many {
+                out::count("reads_with_headers_up_to_the_limit_ok", 1);
+                if hdrs.len() > 64 {
+                    out::count("reads_with_more_than_64_headers_ok", 1);
+                }
             }
         } else if ok {
             out::count("partial_series_prefix_ok", 1);
